@@ -309,6 +309,11 @@ def run_check(pid, tier, seed, replay=None):
     theorems = list(plugin.THEOREMS)
     allowed = list(getattr(plugin, 'ALLOWED_AXIOMS', []))
     extra_targets = [t for t in getattr(plugin, 'COQ_EXTRA_TARGETS', [])]
+    for part in parts:       # the modules the correspondence shards import must be up to date as well
+        for mod in re.findall(r'\b[A-Za-z_]\w*(?:\.[A-Za-z_]\w*)+', part.CORR_REQUIRE or ''):
+            rel = mod.replace('.', '/') + '.v'
+            if os.path.exists(os.path.join(COQ, rel)) and rel + 'o' not in extra_targets:
+                extra_targets.append(rel + 'o')
     rc, out = make_targets([props_file + 'o'] + extra_targets)
     build_ok = rc == 0
     if not build_ok:
